@@ -28,7 +28,6 @@ TRUSTED = ["ClientLTS.v is a hand model of AsyncIOClient.connect/_receive_loop/s
            "tools/vloop.py: virtual-time selector, fake transports, method wrappers, block -> label translation"]
 ASSUMPTIONS = ["the application does not cancel connect/send/close tasks (close() may be called any number of times)",
                "asyncio schedules every runnable task eventually (fairness)",
-               "build_network_map=False (no _seed_network_map task)",
                "a status / receive callback does not swallow CancelledError"]
 IMPORTS = "From NV Require Import Base ClientLTS CorrClientLTS."
 MAX_POS = 160        # injection positions per base session (an unchanged client has 30-60 event-loop steps per session;
@@ -54,6 +53,10 @@ SHAPE_Y_CONNS = [{}, {"delay": 0.1}]
 SHAPE_Y_SCRIPT = [["connect"], ["run", 1.0], ["frames", 1], ["run", 0.2], ["feed", b"Sorry,Limited".hex()], ["run", 31.0],
                   ["frames", 1], ["run", 0.5]]
 SHAPES["Y"] = (SHAPE_Y_SCRIPT, SHAPE_Y_CONNS)
+# N (clients that build the network map): what the seeding task's own sends run into
+SHAPE_N_CONNS = [{"drain": "susp"}, {"delay": 0.1, "drain": "susp"}, {"delay": 0.1}]
+SHAPE_N_SCRIPT = [["connect"], ["run", 2.5], ["frames", 1], ["send"], ["run", 1.0], ["wmode", "fail"], ["run", 1.5], ["frames", 1],
+                  ["run", 2.2], ["wmode", "suspfail"], ["run", 2.0], ["eof"], ["run", 5.0]]
 PAIR = {"raise": "ret", "slowraise": "slow"}
 ALWAYS_SEARCH = True      # the oracle is cheap (the sessions are shared with correspond) and some sessions exist only for it
 # oracle-only sessions: close() called from INSIDE a callback, i.e. on one of the client's own tasks (not a schedule of the LTS)
@@ -119,7 +122,7 @@ def close_specs(ctx):
                     sp["exc_rot"] = ctx.seed
                     tag = "rcb-close#%d" % kw["rcb_close_at"] if "rcb_close_at" in kw else "scb-close@%d" % kw["scb_close_on"]
                     inj.append((sp, {"client": c, "cb": cb, "shape": sh + "/" + tag, "at": None, "oracle_only": True}))
-    # oracle-only: clients that build the network map run a seeding task after every (re)connect (three requests, 2 s
+    # clients that build the network map run a seeding task after every (re)connect (three requests, 2 s
     # apart); close() at any moment of that window must still leave nothing running
     def npos_of(c, cb):
         return min([o.get("npos") or 0 for m, o in zip(bmeta, bobs) if (m["client"], m["shape"], m["cb"]) == (c, "A", cb)] or [0])
@@ -131,7 +134,17 @@ def close_specs(ctx):
                 sp = dict(sp0)
                 sp["inject"] = {"at": at, "ops": [["close"]]}
                 sp["exc_rot"] = ctx.seed + at
-                inj.append((sp, {"client": c, "cb": cb, "shape": "A/netmap", "at": at, "oracle_only": True}))
+                inj.append((sp, {"client": c, "cb": cb, "shape": "A/netmap", "at": at}))      # modelled (ASeed*) AND judged
+            # shape N: the seeding sends themselves suspend in drain, fail (DISCONNECTED from inside the seeding task, with a
+            # status callback that returns or is slow), every reconnect starts another seeding task
+            spn = vloop.spec(c, cb=cb, rcb="slow" if cb == "slow" else "ret", script=SHAPE_N_SCRIPT, conns=SHAPE_N_CONNS, settle=25.0)
+            spn["netmap"] = True
+            inj.append((dict(spn), {"client": c, "cb": cb, "shape": "N/netmap", "at": None}))
+            for at in range(0, 40, 3 if not thorough else 1):     # (a base N session has 46 or more steps)
+                sp = dict(spn)
+                sp["inject"] = {"at": at, "ops": [["close"]]}
+                sp["exc_rot"] = ctx.seed + at
+                inj.append((sp, {"client": c, "cb": cb, "shape": "N/netmap", "at": at}))
     # close() called a second time while the first is still delivering its CLOSED notification (slow callback)
     for c in clients:
         for cb in ("slow", "slowraise"):
@@ -183,9 +196,17 @@ def _short(m):
 def correspond(ctx):
     specs, meta = _runs(ctx)
     obs = [m["obs"] for m in meta]
-    cases, idx = vloop.trace_cases(obs)
+    # clients constructed with build_network_map=True (seeding tasks) are accepted by the model with seeding = true
+    seeding = [bool(sp.get("netmap")) for sp in specs]
+    cases, idx = vloop.trace_cases([o if not sd else {"labels": None} for o, sd in zip(obs, seeding)])
     r = run_cases("C14", "lts", IMPORTS, "kind * list label", "chk_trace", cases, shard=60)
     failing_cases = [dict(_short(meta[idx[i]]), why="trace rejected by lts_accepts") for i in r["failing"]]
+    cases2, idx2 = vloop.trace_cases([o if sd else {"labels": None} for o, sd in zip(obs, seeding)])
+    r2 = run_cases("C14", "ltsseed", IMPORTS, "kind * list label", "chk_trace_seeding", cases2, shard=60)
+    failing_cases += [dict(_short(meta[idx2[i]]), why="trace rejected by lts_accepts (seeding = true)") for i in r2["failing"]]
+    r["failing"] = list(r["failing"]) + [len(cases) + i for i in r2["failing"]]
+    r["errors"] = list(r.get("errors", [])) + list(r2.get("errors", []))
+    r["wall_s"] = round(r.get("wall_s", 0) + r2.get("wall_s", 0), 2)
     bad_runs = 0
     for i, o in enumerate(obs):
         if meta[i].get("oracle_only") and not o.get("spin") and not o.get("crash"):
